@@ -273,7 +273,7 @@ impl LinearConstraintSystem {
                         }
                     } else if let Some(&lp_idx) = var_to_lp_index.get(&var) {
                         // This is a decision variable
-                        row[lp_idx] = coeff;
+                        row[lp_idx] += coeff;
                     }
                 }
                 
